@@ -1041,6 +1041,12 @@ fn len_stream(ctx: &mut Ctx) {
 	len_for::<BinaryHeap<u32>>(ctx, "BinaryHeap<u32>", |v| v.len());
 	len_for::<BTreeSet<u32>>(ctx, "BTreeSet<u32>", |v| v.len());
 	len_for::<BTreeMap<u16, Vec<u8>>>(ctx, "BTreeMap<u16,Vec<u8>>", |v| v.len());
+	len_for::<VecDeque<()>>(ctx, "VecDeque<()>", |v| v.len());
+	len_for::<LinkedList<()>>(ctx, "LinkedList<()>", |v| v.len());
+	len_for::<BinaryHeap<()>>(ctx, "BinaryHeap<()>", |v| v.len());
+	len_for::<(Vec<()>, u32)>(ctx, "(Vec<()>,u32)", |v| v.0.len());
+	len_for::<Vec<Box<()>>>(ctx, "Vec<Box<()>>", |v| v.len());
+	len_for::<Vec<crate::derived::Marker>>(ctx, "Vec<Marker>", |v| v.len());
 	len_for::<(Vec<u8>,)>(ctx, "(Vec<u8>,)", |v| v.0.len());
 	len_for::<(Vec<u16>, u32)>(ctx, "(Vec<u16>,u32)", |v| v.0.len());
 	len_for::<(BTreeSet<u8>, String, u8)>(ctx, "(BTreeSet<u8>,String,u8)", |v| v.0.len());
